@@ -485,4 +485,44 @@ def Truthful (w : World) (s : Source) (t : Tgt) (c : Cache) : Prop :=
         (t.stored.runId = s.id2 ∧ t.stored.runId ≠ s.id1 ∧
           AgreeBelow w tid s.id2 t.stored.offset ∧ c.runId ≠ s.id1))
 
+/-! ## 8. Sequences of connections -/
+
+/-- source, target bookkeeping + truth, cache description and cache bytes -/
+structure Sys where
+  s : Source
+  t : Tgt
+  c : Cache
+  d : CData
+
+/-- Everything reachable from an empty target and an empty cache by
+    * `conn`    one connection, in either mode, however it ends (`done`, `e`), the
+                cache storing any number `k` of further bytes;
+    * `same`    the source changing anything but its ids (offsets, backlog window);
+    * `change`  the source turning into another one (failover exposing the current
+                id as previous one, or an unrelated history) whose current id is new;
+    * `cache`   the cache being lost, trimmed, collected or replaced by another
+                instance's (any well-formed consistent cache not newly labelled
+                with the current id);
+    * `forget`  the stored position being lost or replaced by one that cannot be
+                continued (foreign id or negative offset): a restart in in-memory
+                mode (`("",0)`), a deleted checkpoint, `ResetStartPoint`.
+    A restart in resume mode keeps the stored position and its label
+    (syncer.updateCheckpoint), i.e. is no transition at all. -/
+inductive Reach (w : World) : Sys → Prop
+  | init (s : Source) (be : Backend) : SourceWF s → Agree w s →
+      Reach w ⟨s, ⟨SP.initial, .none⟩, ⟨be, [], none, none⟩, CData.empty⟩
+  | conn (σ : Sys) (resume done : Bool) (e k : Int) : Reach w σ → 0 ≤ k → σ.s.masterOff + k ≤ maxInt64 →
+      Reach w ⟨σ.s, step resume w σ.s σ.t σ.c σ.d done e,
+               cacheAfter (run w σ.s σ.t.stored σ.c σ.d).mt k, (run w σ.s σ.t.stored σ.c σ.d).data⟩
+  | same (σ : Sys) (s' : Source) : Reach w σ → SourceWF s' → Agree w s' →
+      s'.id1 = σ.s.id1 → s'.id2 = σ.s.id2 → Reach w ⟨s', σ.t, σ.c, σ.d⟩
+  | change (σ : Sys) (s' : Source) : Reach w σ → SourceWF s' → Agree w s' →
+      s'.id1 ≠ σ.t.stored.runId → s'.id1 ≠ σ.c.runId →
+      (s'.id2 = σ.t.stored.runId → σ.t.stored.runId = σ.s.id1) → Reach w ⟨s', σ.t, σ.c, σ.d⟩
+  | cache (σ : Sys) (c' : Cache) (d' : CData) : Reach w σ → CacheWF c' → CacheOK w c' d' →
+      (c'.runId = σ.c.runId ∨ c'.runId ≠ σ.s.id1) → Reach w ⟨σ.s, σ.t, c', d'⟩
+  | forget (σ : Sys) (sp' : SP) : Reach w σ →
+      ((sp'.runId ≠ σ.s.id1 ∧ sp'.runId ≠ σ.s.id2) ∨ sp'.offset < 0) →
+      Reach w ⟨σ.s, ⟨sp', σ.t.truth⟩, σ.c, σ.d⟩
+
 end GunYu.Psync
